@@ -4,6 +4,7 @@ import (
 	_ "embed"
 	"encoding/json"
 	"fmt"
+	"go/token"
 	"go/types"
 	"sort"
 	"strings"
@@ -765,6 +766,7 @@ func (p *Program) installOwner() {
 		}
 	}
 	p.installWriteOnce()
+	p.installDefaultFuncs()
 	an.RecvOwnerHook = func(fn *ssa.Function) string {
 		if fn.Signature.Recv() == nil {
 			return ""
@@ -834,6 +836,260 @@ func (p *Program) installOwner() {
 // it from a module constructor (once, outside loops) — and never have their address handed
 // on. For those, reading the field of an object whose construction is in view yields what the
 // construction put there (an.FieldWriteOnceHook).
+// installDefaultFuncs: for every function-typed struct field of the module, the one module
+// function stored into it by module code (an.DefaultFieldFuncHook).
+// unexportedRecv: fn is a method of an unexported named type (callable only from the module's own code).
+func unexportedRecv(fn *ssa.Function) bool {
+	r := fn.Signature.Recv()
+	if r == nil {
+		return false
+	}
+	t := r.Type()
+	if pt, ok := t.(*types.Pointer); ok {
+		t = pt.Elem()
+	}
+	n, ok := t.(*types.Named)
+	return ok && !n.Obj().Exported()
+}
+
+func (p *Program) installDefaultFuncs() {
+	type info struct {
+		fns     map[*ssa.Function]bool
+		unknown bool
+	}
+	byField := map[*types.Var]*info{}
+	fieldVar := func(fa *ssa.FieldAddr) *types.Var {
+		t := fa.X.Type()
+		if pt, ok := t.Underlying().(*types.Pointer); ok {
+			t = pt.Elem()
+		}
+		st, ok := t.Underlying().(*types.Struct)
+		if !ok || fa.Field >= st.NumFields() {
+			return nil
+		}
+		return st.Field(fa.Field)
+	}
+	var classify func(v ssa.Value, inf *info, depth int)
+	classify = func(v ssa.Value, inf *info, depth int) {
+		if depth > 6 || v == nil {
+			inf.unknown = true
+			return
+		}
+		switch x := v.(type) {
+		case *ssa.Function:
+			inf.fns[x] = true
+		case *ssa.MakeClosure:
+			if f, ok := x.Fn.(*ssa.Function); ok && len(x.Bindings) == 0 {
+				inf.fns[f] = true
+			} else {
+				inf.unknown = true
+			}
+		case *ssa.ChangeType:
+			classify(x.X, inf, depth+1)
+		case *ssa.Const:
+			// nil: "not set", replaced by a default elsewhere
+		case *ssa.Parameter, *ssa.FreeVar:
+			// handed in from outside: the injection point
+		case *ssa.Phi:
+			for _, e := range x.Edges {
+				classify(e, inf, depth+1)
+			}
+		case *ssa.UnOp:
+			if x.Op != token.MUL {
+				inf.unknown = true
+				return
+			}
+			// a field of an option record / a captured variable: came in from outside, or is another
+			// injectable field whose own default counts
+			if fa, ok := x.X.(*ssa.FieldAddr); ok {
+				if fv := fieldVar(fa); fv != nil {
+					if _, isFn := fv.Type().Underlying().(*types.Signature); isFn {
+						if other := byField[fv]; other != nil {
+							for f := range other.fns {
+								inf.fns[f] = true
+							}
+						}
+						return
+					}
+				}
+			}
+			if a := an.ResolveAlloc(x.X); a != nil {
+				for _, st := range an.StoresTo(a) {
+					classify(st.Val, inf, depth+1)
+				}
+				return
+			}
+			inf.unknown = true
+		default:
+			inf.unknown = true
+		}
+	}
+	for round := 0; round < 2; round++ {
+		for _, fn := range p.ModFuncs {
+			an.Instrs(fn, func(in ssa.Instruction) {
+				st, ok := in.(*ssa.Store)
+				if !ok {
+					return
+				}
+				fa, ok := st.Addr.(*ssa.FieldAddr)
+				if !ok {
+					return
+				}
+				fv := fieldVar(fa)
+				if fv == nil {
+					return
+				}
+				if _, isFn := fv.Type().Underlying().(*types.Signature); !isFn {
+					return
+				}
+				inf := byField[fv]
+				if inf == nil {
+					inf = &info{fns: map[*ssa.Function]bool{}}
+					byField[fv] = inf
+				}
+				classify(st.Val, inf, 0)
+			})
+		}
+	}
+	// function-typed parameters of unexported functions: the one function all call sites pass
+	paramSites := map[*ssa.Function][]*ssa.CallCommon{}
+	for _, fn := range p.ModFuncs {
+		for _, b := range fn.Blocks {
+			for _, in := range b.Instrs {
+				if ci, ok := in.(ssa.CallInstruction); ok {
+					if sc := ci.Common().StaticCallee(); sc != nil && p.InModule(sc) && sc.Object() != nil && (!sc.Object().Exported() || unexportedRecv(sc)) {
+						paramSites[sc] = append(paramSites[sc], ci.Common())
+					}
+				}
+			}
+		}
+	}
+	an.FuncParamDefaultHook = func(x *ssa.Parameter) *ssa.Function {
+		fn := x.Parent()
+		if _, isFn := x.Type().Underlying().(*types.Signature); !isFn || fn == nil {
+			return nil
+		}
+		sites := paramSites[fn]
+		if len(sites) == 0 {
+			return nil
+		}
+		idx := -1
+		for i, q := range fn.Params {
+			if q == x {
+				idx = i
+			}
+		}
+		var res *ssa.Function
+		for _, site := range sites {
+			if idx < 0 || idx >= len(site.Args) {
+				return nil
+			}
+			inf := &info{fns: map[*ssa.Function]bool{}}
+			classify(site.Args[idx], inf, 0)
+			if inf.unknown || len(inf.fns) != 1 {
+				return nil
+			}
+			for f := range inf.fns {
+				if res != nil && res != f {
+					return nil
+				}
+				res = f
+			}
+		}
+		return res
+	}
+	// interfaces of the module with exactly one implementing type in the module (function adapter
+	// types aside): an invoke through such an interface runs, with the default wiring, that type's method
+	type implKey struct {
+		iface *types.Named
+		name  string
+	}
+	implMemo := map[implKey]*ssa.Function{}
+	an.SoleImplHook = func(t types.Type, name string) *ssa.Function {
+		named, ok := t.(*types.Named)
+		if !ok || named.Obj().Pkg() == nil {
+			return nil
+		}
+		iface, ok := named.Underlying().(*types.Interface)
+		if !ok || iface.NumMethods() == 0 {
+			return nil
+		}
+		k := implKey{named, name}
+		if f, done := implMemo[k]; done {
+			return f
+		}
+		implMemo[k] = nil
+		inMod := false
+		var impls []types.Type
+		for _, pkg := range []*ssa.Package{p.Root, p.Sqlite, p.Prom} {
+			if pkg == nil {
+				continue
+			}
+			if pkg.Pkg == named.Obj().Pkg() {
+				inMod = true
+			}
+			for _, m := range pkg.Members {
+				tm, isT := m.(*ssa.Type)
+				if !isT {
+					continue
+				}
+				nt, isN := tm.Type().(*types.Named)
+				if !isN || nt.TypeParams().Len() > 0 {
+					continue
+				}
+				if _, isI := nt.Underlying().(*types.Interface); isI {
+					continue
+				}
+				if _, isSig := nt.Underlying().(*types.Signature); isSig {
+					continue // an adapter `type XFunc func(...)`: runs what it was given
+				}
+				switch {
+				case types.Implements(nt, iface):
+					impls = append(impls, nt)
+				case types.Implements(types.NewPointer(nt), iface):
+					impls = append(impls, types.NewPointer(nt))
+				}
+			}
+		}
+		if !inMod || len(impls) != 1 {
+			return nil
+		}
+		sel := p.SSA.MethodSets.MethodSet(impls[0]).Lookup(named.Obj().Pkg(), name)
+		if sel == nil {
+			return nil
+		}
+		f := p.SSA.MethodValue(sel)
+		implMemo[k] = f
+		return f
+	}
+	an.MethodOfHook = func(t types.Type, pkg *types.Package, name string) *ssa.Function {
+		sel := p.SSA.MethodSets.MethodSet(t).Lookup(pkg, name)
+		if sel == nil {
+			return nil
+		}
+		return p.SSA.MethodValue(sel)
+	}
+	an.DefaultFieldFuncHook = func(t types.Type, i int) *ssa.Function {
+		if pt, ok := t.Underlying().(*types.Pointer); ok {
+			t = pt.Elem()
+		}
+		st, ok := t.Underlying().(*types.Struct)
+		if !ok || i >= st.NumFields() {
+			return nil
+		}
+		inf := byField[st.Field(i)]
+		if inf == nil || inf.unknown || len(inf.fns) != 1 {
+			return nil
+		}
+		for f := range inf.fns {
+			if p.InModule(f) || f.Pkg != nil {
+				return f
+			}
+		}
+		return nil
+	}
+}
+
 func (p *Program) installWriteOnce() {
 	dirty := map[*types.Var]bool{}
 	nStores := map[*types.Var]int{}
